@@ -55,11 +55,11 @@ def setKV {α : Type} (params : List (Str × α)) (k : Str) (v : α) : List (Str
   if params.any (·.1 = k) then params.map (fun kv => if kv.1 = k then (kv.1, v) else kv)
   else params ++ [(k, v)]
 
-/-- `if var.wrapper: value = value[var.local_name]` : the exception it leaks when the value
-found under the key is not an object holding the member (`find_var` also matches a wrapped
-var by its plain local name, and then the value is a list) -/
-def unwrapLeak (var : DVar) (value : JShape) : Option Err :=
-  if var.wrapper.isSome then
+/-- `if var.wrapper and var.local_name != key: value = value[var.local_name]` : the subscript is
+only taken for a var matched through its wrapper key (a wrapped var matched by its plain local
+name keeps the list it was given); the exceptions a failing subscript would leak are kept -/
+def unwrapLeak (var : DVar) (key : Str) (value : JShape) : Option Err :=
+  if var.wrapper.isSome && var.localName ≠ key then
     match value with
     | .object ms => if ms.any (·.1 = var.localName) then none else some (.leaked "KeyError")
     | _ => some (.leaked "TypeError")
@@ -73,7 +73,7 @@ def bindStep {α : Type} (bv : DVar → Str → JShape → Except Err α) (cfg :
   | none =>
     if cfg.failOnUnknownProperties then .error (.parser "Unknown property") else .ok params
   | some var =>
-    match unwrapLeak var kv.2 with
+    match unwrapLeak var kv.1 kv.2 with
     | some err => .error err
     | none =>
       match bv var kv.1 kv.2 with
